@@ -161,10 +161,15 @@ def main(tier=None, replay=None):
             orbs.append(("vertical", dict(initial_state=[float(v) for v in cmv.to_synodic([0.0, 0.0], 0.6, "q3")]), 1))
         except Exception as ex:  # noqa
             ck.notes.append(f"vertical seed from the centre manifold failed: {ex!r}")
+    fixture_failed = []
     for fam, kw, li in orbs:
         L = em.get_libration_point(li)
         orbit = L.create_orbit(fam, **{k: (np.asarray(v, dtype=float) if k == "initial_state" else v) for k, v in kw.items()})
-        orbit.correct()
+        try:
+            orbit.correct()
+        except Exception as ex:  # noqa - a fixture orbit that cannot be built is not itself a C03 verdict (see fixture_failed below)
+            fixture_failed.append(f"L{li} {fam} {sorted(kw.items())}: correct() raised {ex!r}"[:300])
+            continue
         M = np.asarray(orbit.monodromy)
         x0 = np.asarray(orbit.initial_state, dtype=float)
         f0 = np.asarray(em.dynsys.rhs(0.0, x0))
@@ -196,11 +201,15 @@ def main(tier=None, replay=None):
     for fam, kw, li in orbs[:2]:
         L = em.get_libration_point(li)
         ref = L.create_orbit(fam, **kw)
-        ref.correct()
-        T_true = float(ref.period)
-        orbit = L.create_orbit(fam, **kw)
-        orbit.period = float(f"{T_true:.5g}")          # a 5-significant-digit tabulated value
-        res = orbit.correct()
+        try:
+            ref.correct()
+            T_true = float(ref.period)
+            orbit = L.create_orbit(fam, **kw)
+            orbit.period = float(f"{T_true:.5g}")          # a 5-significant-digit tabulated value
+            res = orbit.correct()
+        except Exception as ex:  # noqa
+            fixture_failed.append(f"L{li} {fam} preset-period history: correct() raised {ex!r}"[:300])
+            continue
         label = f"earth-moon|L{li}|{fam}|preset-period-then-correct"
         t = cs.trace(label, {"period_is_twice_half_period": -130, "monodromy_fixes_velocity": -70},
                      {"family": fam, "kw": kw, "L": li, "history": "preset-period"})
@@ -213,6 +222,15 @@ def main(tier=None, replay=None):
     cs.decide(key_fn=lambda t, n: ("_compute_stm|forward=-1|" + n if (t["data"] or {}).get("forward") == -1
                                    else ("orbit.monodromy|" + n if "family" in (t["data"] or {}) else "_compute_stm|" + n)))
     cs.selftest()
+    # The fixture orbits (Earth-Moon L1/L2 halo and Lyapunov from the analytic seeds) correct on the unchanged tree.  When one
+    # of them cannot be built the monodromy clause was not evaluated for it: that is decided by the rest of the run - if the STM
+    # contracts above already report a violation (a wrong variational system also makes the corrector's Newton steps useless),
+    # the verdict is that violation; if nothing else was found the run is inconclusive and says so (exit 2), never a pass.
+    if fixture_failed:
+        ck.notes += ["monodromy clause not evaluated: " + f for f in fixture_failed]
+        ck.part("monodromy_fixtures", failed=len(fixture_failed))
+        if not ck.viol:
+            raise MachineryError("fixture orbit could not be corrected and no other contract failed: " + fixture_failed[0])
     try:
         nu_observation(ck)
     except Exception as ex:      # an observation must never break the check
